@@ -19,6 +19,22 @@ class ConnectRules(Rule):
     def after(self, d):
         L = self.L
         now = L.w.now
+        # a second firing of a Deferred shows as AlreadyCalledError inside client code
+        for (where, etype, emsg) in d.excs:
+            if etype == "AlreadyCalledError":
+                if d.kind == "timer" and d.fired is not None and d.fired["kind"] == "connect":
+                    L.violate("C04", "H2", "fired-twice:timeout-after-CONNACK",
+                              "the CONNACK timeout fired the connect() Deferred a second time")
+                elif d.connack is not None:
+                    L.violate("C04", "H2", "fired-twice:CONNACK", "a CONNACK fired the connect() Deferred a second time")
+                elif d.kind == "data" and any(fx["fr"].type in ("PUBACK", "PUBREC", "PUBCOMP") for fx in d.frame_fx):
+                    L.violate("C05", "P1", "fired-twice:%s" % d.frame_fx[0]["fr"].type, "a publish() Deferred was fired twice")
+                elif d.kind == "data" and any(fx["fr"].type in ("SUBACK", "UNSUBACK") for fx in d.frame_fx):
+                    L.violate("C07", "S2", "fired-twice:%s" % d.frame_fx[0]["fr"].type, "a subscribe()/unsubscribe() Deferred was fired twice")
+                elif d.kind == "lost":
+                    c = d.lost_conn
+                    L.violate("C11" if (c is not None and c.clean) else "C12", "L1" if (c is not None and c.clean) else "M1",
+                              "fired-twice:loss", "a Deferred was fired twice by the connection-loss handling")
         # H1
         for rq in d.apis:
             if rq.kind != "connect":
@@ -254,6 +270,16 @@ class HostileRules(Rule):
                 if d.fired and d.fired.get("pkt") is not None:
                     ctx += ":" + d.fired["pkt"].type
             L.violate("C16", "X1", "%s:%s:%s" % (d.kind, ctx, e[1]), "exception escaped a %s dispatch (%s): %s %s" % (d.kind, ctx, e[1], e[2]))
+        if d.kind == "data" and not d.desync and d.conn is not None and getattr(d.conn, "had_malformed", False) \
+                and not any(fx["tag"] == "malformed" for fx in d.frame_fx):
+            # later dispatches of a connection that was fed a malformed packet: every delivery
+            # still needs a well-formed PUBLISH (QoS 0/1) or a PUBREL releasing one
+            just_cb = sum(1 for fx in d.frame_fx if fx["tag"] in ("publish-q0", "publish-q1", "pubrel-first"))
+            ncb = sum(1 for x in d.cbs if x[1] == "onPublish")
+            if ncb > just_cb and all(fx["state"] == "connected" for fx in d.frame_fx):
+                L.violate("C16", "X3", "unjustified-delivery:later:%s" % (d.frame_fx[0]["fr"].type if d.frame_fx else "?"),
+                          "onPublish called %d times, %d justified by well-formed packets (a malformed packet was received earlier on this connection)"
+                          % (ncb, just_cb))
         if d.kind == "data" and not d.desync and any(fx["tag"] == "malformed" for fx in d.frame_fx):
             L.probe("malformed_frame")
             just_cb = sum(1 for fx in d.frame_fx if fx["tag"] in ("publish-q0", "publish-q1", "pubrel-first"))
@@ -309,6 +335,10 @@ class ArgRules(Rule):
                               % (rq.m, why, "Deferred failure" if rq.returns_deferred else "raised", what))
                     if rq.m in ("connect", "publish") and ("too-long" in why or "payload-type" in why):
                         L.violate("C02", "W5", "%s:%s:%s" % (rq.m, why, what), "unrepresentable argument not refused: %s" % what)
+                ac = getattr(rq, "attrs_changed", None)
+                if ac:
+                    L.violate("C20", "B2", "%s:%s:protocol-attributes:%s" % (rq.m, why, "+".join(ac)),
+                              "rejected %s(%s) changed the protocol object: %s" % (rq.m, why, ", ".join(ac)))
                 if not rq.nested and len(d.apis) == 1:
                     eff = bool(d.raw_writes or d.timers_new or d.timers_cancel or d.xcalls or d.cbs or len(d.fires) > 1)
                     st = getattr(rq, "states", None)
